@@ -169,17 +169,55 @@ func c18Active(e *Env) {
 	}
 	var goLit *ast.FuncLit
 	nGo := 0
+	// an accepted connection is counted before anything else runs for it: between a successful
+	// Accept and updateActive(+1) there is no call into user callbacks or other module code
+	// (Shutdown polls the counter; an uncounted connection whose OnAccept/OnConnect hook is
+	// still running is invisible to it)
+	isAccept := func(f *types.Func) bool {
+		return f != nil && f.Name() == "Accept" && f.Pkg() != nil && f.Pkg().Path() == "net"
+	}
+	nAccept := 0
 	rl := &esp.Rule{Name: rule, Init: "idle",
+		Track: func(k string) bool { return k == "err == nil" },
 		Call: func(c *esp.Ctx, call *ast.CallExpr, f *types.Func) {
+			if isAccept(f) {
+				nAccept++
+				if c.S.TS == "idle" {
+					c.S.TS = "accepted?"
+				}
+				return
+			}
 			if d, ok := delta(call); ok && d == 1 {
-				if c.S.TS != "idle" {
+				if c.S.TS != "idle" && c.S.TS != "accepted" && c.S.TS != "accepted?" {
 					c.Violate(call.Pos(), fname+":double-count", "connection counted twice")
 				}
 				c.S.TS = "counted"
+				return
+			}
+			if c.S.TS == "accepted" {
+				// dynamic calls (callback fields) and calls into the module before the count
+				if f == nil || (f.Pkg() != nil && strings.HasPrefix(f.Pkg().Path(), Mod)) {
+					c.Violate(call.Pos(), fname+":"+c.SiteKey(call)+":before-count", "`"+types.ExprString(call.Fun)+"(…)` runs for an accepted connection before updateActive(+1): a shutdown that starts meanwhile sees active == 0 and returns while the connection's request is still unanswered")
+				}
+			}
+		},
+		Branch: func(c *esp.Ctx, cond ast.Expr, val bool) {
+			if c.S.TS != "accepted?" {
+				return
+			}
+			if ok, isNil := errNilCond(info, cond, val); ok {
+				if isNil {
+					c.S.TS = "accepted"
+				} else {
+					c.S.TS = "idle"
+				}
 			}
 		},
 		Node: func(c *esp.Ctx, n ast.Node) {
 			if g, ok := n.(*ast.GoStmt); ok {
+				if _, ok := g.Call.Fun.(*ast.FuncLit); ok && (c.S.TS == "accepted" || c.S.TS == "accepted?") {
+					c.Violate(g.Pos(), fname+":goroutine-uncounted", "the connection goroutine is started for a connection that was never counted active")
+				}
 				if fl, ok := g.Call.Fun.(*ast.FuncLit); ok && c.S.TS == "counted" {
 					goLit = fl
 					nGo++
